@@ -1,0 +1,13 @@
+//go:build verif
+// +build verif
+
+package threadlocal
+
+// LiveTables returns the number of go routine local storages that currently exist (read-only;
+// compiled only with the build tag `verif`, used by the verification harness of property C14).
+func LiveTables() int {
+	tlsLock.RLock()
+	n := len(tls)
+	tlsLock.RUnlock()
+	return n
+}
